@@ -81,6 +81,16 @@ def dict_tok(t):
     return d
 
 
+def ival(tok, salt):
+    """an integer argument: a Python int, or (for a third of the calls, chosen by the arguments themselves so that a run is
+    reproducible) a NumPy integer - the API accepts both"""
+    v = int(tok)
+    if (v + salt) % 3 == 0:
+        import numpy as np
+        return np.int64(v) if (v + salt) % 2 else np.int32(v)
+    return v
+
+
 def query(sp, name, args):
     name = ALIAS.get(name, name)
     if name == "kappa":
@@ -162,18 +172,16 @@ def query(sp, name, args):
         return ("int", int(sp.get_length()))
     if name == "sty":
         return ("ints", [int(x) for x in sp.get_all_phosphorylatable_sites()])
-    if name == "linNCPR":
-        return mat(sp.get_linear_NCPR(int(args[0])))
-    if name == "linFCR":
-        return mat(sp.get_linear_FCR(int(args[0])))
-    if name == "linSigma":
-        return mat(sp.get_linear_sigma(int(args[0])))
-    if name == "linHydro":
-        return mat(sp.get_linear_hydropathy(int(args[0])))
+    if name in ("linNCPR", "linFCR", "linSigma", "linHydro"):
+        f = {"linNCPR": sp.get_linear_NCPR, "linFCR": sp.get_linear_FCR, "linSigma": sp.get_linear_sigma, "linHydro": sp.get_linear_hydropathy}[name]
+        w = ival(args[0], len(sp))
+        # positional and keyword form alternate
+        return mat(f(w) if (int(args[0]) + len(sp)) % 2 else f(blobLen=w))
     if name == "linComp":
         import numpy as np
         g = groups_tok(args[1])
-        r = sp.get_linear_sequence_composition(int(args[0])) if g is None else sp.get_linear_sequence_composition(int(args[0]), g)
+        w = ival(args[0], len(sp))
+        r = sp.get_linear_sequence_composition(w) if g is None else sp.get_linear_sequence_composition(w, g)
         return mat(np.vstack((np.asarray(r[0], dtype=float), np.atleast_2d(np.asarray(r[1], dtype=float)))))
     if name == "reduce":
         ua = dict_tok(args[1])
@@ -187,7 +195,8 @@ def query(sp, name, args):
             typ = unhex6(typ[2:])       # a type name that is not a plain token ('', ' ', ',', ...)
         ua = dict_tok(ua)
         size = int(size) if size.lstrip("-").isdigit() else size
-        r = sp.get_linear_complexity(complexityType=typ, alphabetSize=size, userAlphabet=ua, blobLen=int(w), stepSize=int(st), wordSize=int(ws))
+        r = sp.get_linear_complexity(complexityType=typ, alphabetSize=size, userAlphabet=ua, blobLen=ival(w, len(sp)), stepSize=ival(st, len(sp) + 1),
+                                     wordSize=int(ws))
         return mat(r)
     if name == "titr":
         return ("skip",)
